@@ -46,6 +46,15 @@ def gen(rng, budget, tier):
                 ops.append(rng.choice(["H", "B", "S", "S", "X", "X"]) + str(i))
         if ops:
             yield f"c14.script {mx} {','.join(ops)}"
+    # clients that flood their session channel with requests and go away (added last)
+    yield "c14.script 3 A0,Q0,A1,Q1,A2,Q2,A3,X3"
+    yield "c14.script 2 A0,U0,A1,U1,A2,U2,A3,X3"
+    for _ in range(6 if tier == "quick" else 200):
+        mx = rng.choice([1, 2, 3])
+        ops = []
+        for i in range(rng.choice([2, 4, 5])):
+            ops += [f"A{i}", rng.choice(["Q", "U", "Q", "S"]) + str(i)] + ([f"X{i}"] if rng.random() < 0.5 else [])
+        yield f"c14.script {mx} {','.join(ops)}"
 
 
 def _oracle(case, s):
